@@ -253,7 +253,7 @@ func c9sess(a []string) string {
 			w.coord.TssTimeout = 25 * time.Millisecond
 			w.coord.InitiatePeriod = 4 * time.Millisecond
 		case "gtorun":
-			w.coord.TssTimeout = 1200 * time.Millisecond
+			w.coord.TssTimeout = 2 * time.Second
 		}
 		procs := []*recProc{}
 		tps := []tss.TssProcess{}
@@ -403,7 +403,7 @@ func c9stress(a []string) string {
 	}
 	close(start)
 	refused, other := 0, 0
-	deadline := time.After(3 * time.Second)
+	deadline := time.After(c9wait)
 collect:
 	for refused+other < n-1 {
 		select {
